@@ -4,8 +4,8 @@ package main
 //
 //   Node  {ty, f: [{n, v: Value}], a: [Entry], c: [Node]}     a container (resource, scope, span, ...)
 //   Entry {key: "s:<hex>", kn: byte length, v: Value}         one attribute, in map order
-//   Value {k, v, n, e}   k = s|x|i|d|b|u|id : leaf, v = tagged string, n = byte length (s, x)
-//                        k = L : e = [Value]        k = M : e = [Entry]
+//   Value {k, v, n}      k = s|x|i|d|b|u|id : leaf, v = tagged string, n = byte length (s, x)
+//         {k, e}         k = L : e = [Value]        k = M : e = [Entry]
 //   tagged strings: "s:<hex of the bytes>", "x:<hex>" (bytes), "i:<decimal>", "d:<hex of the IEEE bits>",
 //   "b:true|false", "u:" (empty value), "id:<hex>" (trace / span ids)
 
@@ -20,22 +20,29 @@ import (
 	"go.opentelemetry.io/collector/pdata/ptrace"
 )
 
-type Value struct {
+// Value is a *Leaf or a *Cont.
+type Value = any
+
+type Leaf struct {
 	K string `json:"k"`
 	V string `json:"v"`
 	N int    `json:"n"`
+}
+
+type Cont struct {
+	K string `json:"k"`
 	E []any  `json:"e"`
 }
 
 type Entry struct {
 	Key string `json:"key"`
 	Kn  int    `json:"kn"`
-	V   *Value `json:"v"`
+	V   Value  `json:"v"`
 }
 
 type Field struct {
 	N string `json:"n"`
-	V *Value `json:"v"`
+	V Value  `json:"v"`
 }
 
 type Node struct {
@@ -50,20 +57,20 @@ func node(ty string) *Node { return &Node{Ty: ty, F: []Field{}, A: []any{}, C: [
 
 func tagStr(s string) string { return "s:" + hex.EncodeToString([]byte(s)) }
 
-func leaf(k, v string, n int) *Value { return &Value{K: k, V: v, N: n, E: []any{}} }
-func vStr(s string) *Value           { return leaf("s", tagStr(s), len(s)) }
-func vBytes(b []byte) *Value         { return leaf("x", "x:"+hex.EncodeToString(b), len(b)) }
-func vInt(i int64) *Value            { return leaf("i", "i:"+strconv.FormatInt(i, 10), 0) }
-func vUint(i uint64) *Value          { return leaf("i", "i:"+strconv.FormatUint(i, 10), 0) }
-func vDouble(d float64) *Value {
+func leaf(k, v string, n int) Value { return &Leaf{K: k, V: v, N: n} }
+func vStr(s string) Value           { return leaf("s", tagStr(s), len(s)) }
+func vBytes(b []byte) Value         { return leaf("x", "x:"+hex.EncodeToString(b), len(b)) }
+func vInt(i int64) Value            { return leaf("i", "i:"+strconv.FormatInt(i, 10), 0) }
+func vUint(i uint64) Value          { return leaf("i", "i:"+strconv.FormatUint(i, 10), 0) }
+func vDouble(d float64) Value {
 	return leaf("d", "d:"+strconv.FormatUint(math.Float64bits(d), 16), 0)
 }
-func vBool(b bool) *Value  { return leaf("b", "b:"+strconv.FormatBool(b), 0) }
-func vID(b []byte) *Value  { return leaf("id", "id:"+hex.EncodeToString(b), 0) }
-func vList(e []any) *Value { return &Value{K: "L", E: e} }
-func vMap(e []any) *Value  { return &Value{K: "M", E: e} }
+func vBool(b bool) Value  { return leaf("b", "b:"+strconv.FormatBool(b), 0) }
+func vID(b []byte) Value  { return leaf("id", "id:"+hex.EncodeToString(b), 0) }
+func vList(e []any) Value { return &Cont{K: "L", E: e} }
+func vMap(e []any) Value  { return &Cont{K: "M", E: e} }
 
-func dumpValue(v pcommon.Value) *Value {
+func dumpValue(v pcommon.Value) Value {
 	switch v.Type() {
 	case pcommon.ValueTypeStr:
 		return vStr(v.Str())
@@ -98,7 +105,7 @@ func dumpMap(m pcommon.Map) []any {
 	return e
 }
 
-func (n *Node) f(name string, v *Value) { n.F = append(n.F, Field{N: name, V: v}) }
+func (n *Node) f(name string, v Value) { n.F = append(n.F, Field{N: name, V: v}) }
 
 func dumpResource(n *Node, r pcommon.Resource, schema string) {
 	n.f("schema_url", vStr(schema))
@@ -241,7 +248,7 @@ func dumpExemplars(n *Node, es pmetric.ExemplarSlice) {
 	for i := 0; i < es.Len(); i++ {
 		e := es.At(i)
 		tid, sid := e.TraceID(), e.SpanID()
-		var val *Value
+		var val Value
 		switch e.ValueType() {
 		case pmetric.ExemplarValueTypeInt:
 			val = vInt(e.IntValue())
@@ -255,7 +262,7 @@ func dumpExemplars(n *Node, es pmetric.ExemplarSlice) {
 	n.f("exemplars", vList(l))
 }
 
-func uints(s pcommon.UInt64Slice) *Value {
+func uints(s pcommon.UInt64Slice) Value {
 	l := make([]any, 0, s.Len())
 	for i := 0; i < s.Len(); i++ {
 		l = append(l, vUint(s.At(i)))
@@ -263,7 +270,7 @@ func uints(s pcommon.UInt64Slice) *Value {
 	return vList(l)
 }
 
-func floats(s pcommon.Float64Slice) *Value {
+func floats(s pcommon.Float64Slice) Value {
 	l := make([]any, 0, s.Len())
 	for i := 0; i < s.Len(); i++ {
 		l = append(l, vDouble(s.At(i)))
